@@ -30,6 +30,13 @@ subsets / selectin_polymorphic / of_type (not supported for concrete);
 ``Session.get(K, pk)`` of a row outside K's subtree is expected to be ``None`` only for
 non-concrete hierarchies (concrete tables have independent key spaces).
 
+Also fires on the unchanged tree: ``late-mapped-subclass-stale-compiled-cache`` - after a
+single-table subclass is mapped late, a *fresh* ``select(Parent)`` is served from the
+compiled cache with the old ``discriminator IN (...)`` list (the criterion is added at
+compile time and is not part of the cache key); correct after
+``engine.clear_compiled_cache()``.  Proposed patch:
+selftest/C42/proposed_fixes/mapper_cache_key_includes_hierarchy_generation.diff.
+
 Fires on the unchanged tree (candidate genuine defect, proposed patch in
 selftest/C42/proposed_fixes): ``wp-entity-option-rejected-by-selectin-polymorphic-subload:ArgumentError``
 - with ``polymorphic_load="selectin"`` on a subclass, ``select(with_polymorphic(Base, "*"))``
